@@ -91,6 +91,14 @@ double __CPROVER_uninterpreted_hypot(double, double);
 
 static inline int wb_abs_int(int x) { return x < 0 ? -x : x; }
 
+#ifdef WB_NATIVE
+#define WB_LOOP_CONTRACT(x)
+#define WB_ARRAY_SET(p, n, v) do { for (size_t wb_q = 0; wb_q < (n); wb_q++) (p)[wb_q] = (v); } while (0)
+#else
+#define WB_LOOP_CONTRACT(x) x
+#define WB_ARRAY_SET(p, n, v) __CPROVER_array_set(p, v)
+#endif
+
 /* ---- std::vector<T>: struct with embedded typed storage of WB_CAP_<name> elements (no heap, no pointers:
  * copies are deep like in C++, and CBMC sees typed arrays).  Growth asserts the model bound; element access
  * asserts index < size (which std::vector leaves undefined). ---- */
@@ -99,7 +107,10 @@ static inline size_t wb_idx(size_t i, size_t n) { WB_ASSERT(i < n, "vector index
   static inline void NAME##_push(struct NAME *v, T x)                                                   \
   { WB_ASSERT(v->n < WB_CAP_##NAME, "MODEL-BOUND vector capacity"); v->data[v->n] = x; v->n = v->n + 1; } \
   static inline struct NAME NAME##_new_empty(void)                                                      \
-  { struct NAME v; v.n = 0; return v; }
+  { struct NAME v; v.n = 0; return v; }                                                                 \
+  static inline struct NAME NAME##_new_fill(size_t cnt, T val)                                           \
+  { struct NAME v; WB_ASSERT(cnt <= WB_CAP_##NAME, "MODEL-BOUND vector capacity");                       \
+    WB_ARRAY_SET(v.data, WB_CAP_##NAME, val); v.n = cnt; return v; }
 
 /* content-carrying operations, scalar element types only.  The loop of insert(end(), b, e) is closed by an
  * invariant that speaks about one arbitrary slot wb_g_slot (a ghost index chosen by the harness and never
@@ -107,17 +118,7 @@ static inline size_t wb_idx(size_t i, size_t n) { WB_ASSERT(i < n, "vector index
  * source element. */
 extern size_t wb_g_slot;
 #define WB_SAME(a, b) (*(const unsigned long *)&(a) == *(const unsigned long *)&(b))   /* bit-identical lvalues (8-byte T) */
-#ifdef WB_NATIVE
-#define WB_LOOP_CONTRACT(x)
-#define WB_ARRAY_SET(p, n, v) do { for (size_t wb_q = 0; wb_q < (n); wb_q++) (p)[wb_q] = (v); } while (0)
-#else
-#define WB_LOOP_CONTRACT(x) x
-#define WB_ARRAY_SET(p, n, v) __CPROVER_array_set(p, v)
-#endif
 #define WB_VEC_SHIMS_SCALAR(NAME, T)                                                                     \
-  static inline struct NAME NAME##_new_fill(size_t cnt, T val)                                           \
-  { struct NAME v; WB_ASSERT(cnt <= WB_CAP_##NAME, "MODEL-BOUND vector capacity");                       \
-    WB_ARRAY_SET(v.data, WB_CAP_##NAME, val); v.n = cnt; return v; }                                             \
   static inline void NAME##_insert_end_range(struct NAME *v, T *pos, const T *b, const T *e)             \
   { WB_ASSERT(pos == &v->data[v->n], "shim: insert() is modelled at end() only");                         \
     size_t cnt = (size_t)(e - b); size_t n0 = v->n;                                                      \
